@@ -961,6 +961,10 @@ func (t *tree) parseListLiteral(first item, expr ast.Node) ast.Node {
 	var items []ast.Node
 	items = append(items, expr)
 	for {
+		if t.peek().typ == itemRightBracket { // trailing comma
+			t.next()
+			return &ast.ListLiteralNode{first.pos, items}
+		}
 		items = append(items, t.parseExpr(0))
 		next := t.next()
 		if next.typ == itemRightBracket {
@@ -991,6 +995,10 @@ func (t *tree) parseMapLiteral(first item, expr ast.Node) ast.Node {
 		}
 		if next.typ != itemComma {
 			t.unexpected(next, "map literal")
+		}
+		if t.peek().typ == itemRightBracket { // trailing comma
+			t.next()
+			return &ast.MapLiteralNode{first.pos, items}
 		}
 		tok := t.expect(itemString, "map literal")
 		var err error
